@@ -85,7 +85,7 @@ func (g *gate) Create(ctx context.Context, record kvs.Record) (string, error) {
 	f := g.d.park(w, rawEv{k: "arrive-create"})
 	if f == fReqLost {
 		g.d.note(w, rawEv{k: "released-create", flt: f, cls: "lost"})
-		return "", ErrInjected
+		return "never-stored-version", ErrInjected // what comes back with an error is unspecified: the caller must not use it
 	}
 	g.d.stMu.Lock()
 	v, err := g.inner.Create(ctx, record)
@@ -99,7 +99,7 @@ func (g *gate) Create(ctx context.Context, record kvs.Record) (string, error) {
 	}
 	g.d.stMu.Unlock()
 	if f == fReplyLost {
-		return "", ErrInjected
+		return "never-stored-version", ErrInjected // what comes back with an error is unspecified: the caller must not use it
 	}
 	return v, err
 }
